@@ -170,10 +170,20 @@ type vcaseJSON struct {
 }
 
 type vobs struct {
-	Refused bool
-	Status  int
-	Close   bool
-	Out     http.Header
+	Refused bool        `json:"refused"`
+	Status  int         `json:"status"`
+	Close   bool        `json:"close"`
+	Out     http.Header `json:"out,omitempty"`
+}
+
+type vrec struct {
+	vcaseJSON
+	Obs vobs `json:"_obs"`
+}
+
+type erec struct {
+	ecaseJSON
+	Obs eobs `json:"_obs"`
 }
 
 func runModifier(c vcaseJSON) vobs {
@@ -265,13 +275,13 @@ type ecaseJSON struct {
 }
 
 type eobs struct {
-	Status   int
-	Contacts int
-	NewConns int
-	SeenVia  []string
-	TagA     string
-	TagB     string
-	Err      string
+	Status   int      `json:"status"`
+	Contacts int      `json:"contacts"`
+	NewConns int      `json:"new_conns"`
+	SeenVia  []string `json:"seen_via"`
+	TagA     string   `json:"tag_a"`
+	TagB     string   `json:"tag_b"`
+	Err      string   `json:"err,omitempty"`
 }
 
 type rig struct {
@@ -461,6 +471,8 @@ func writeShard(dir, kind string, idx int, typ, modelF, propF string, cases []st
 	return os.WriteFile(filepath.Join(dir, fmt.Sprintf("%s_%03d.v", kind, idx)), []byte(sb.String()), 0o644)
 }
 
+const noB = "Definition B := Eval vm_compute in (@nil N).\nPrint B.\n"
+
 func writeJSONL(dir, name string, items []any) {
 	f, err := os.Create(filepath.Join(dir, name))
 	if err != nil {
@@ -502,7 +514,7 @@ func main() {
 		panic(err)
 	}
 	r := rng.New(*seed)
-	m := meta{LineHist: map[string]int{}, E2ERoutes: map[string]int{}, E2EStatus: map[string]int{}, ShardSize: 400}
+	m := meta{LineHist: map[string]int{}, E2ERoutes: map[string]int{}, E2EStatus: map[string]int{}, ShardSize: 200}
 
 	if *replay != "" {
 		data, err := os.ReadFile(*replay)
@@ -519,8 +531,8 @@ func main() {
 		}
 		if rp.Kind == "modifier" {
 			o := runModifier(rp.vcaseJSON)
-			writeShard(*out, "vcases", 0, "vcase", "vcase_model_ok", "vcase_prop_ok", []string{coqVcase(rp.vcaseJSON, o)}, "")
-			writeJSONL(*out, "vcases.jsonl", []any{rp.vcaseJSON})
+			writeShard(*out, "vcases", 0, "vcase", "vcase_model_ok", "vcase_prop_ok", []string{coqVcase(rp.vcaseJSON, o)}, noB)
+			writeJSONL(*out, "vcases.jsonl", []any{vrec{rp.vcaseJSON, o}})
 			m.Shards = []string{"vcases_000.v"}
 			fmt.Printf("replay modifier: refused=%v status=%d out=%q\n", o.Refused, o.Status, o.Out["Via"])
 		} else {
@@ -532,8 +544,8 @@ func main() {
 			// the replay names whose element the chain carried; re-create it with this run's tags
 			c.ClientVia = retag(c.ClientVia, rg)
 			o := rg.run(c)
-			writeShard(*out, "ecases", 0, "ecase", "ecase_model_ok", "ecase_prop_ok", []string{coqEcase(rg, c, o)}, "")
-			writeJSONL(*out, "ecases.jsonl", []any{c})
+			writeShard(*out, "ecases", 0, "ecase", "ecase_model_ok", "ecase_prop_ok", []string{coqEcase(rg, c, o)}, noB)
+			writeJSONL(*out, "ecases.jsonl", []any{erec{untag(c, rg), o}})
 			m.Shards = []string{"ecases_000.v"}
 			fmt.Printf("replay e2e: route=%s status=%d contacts=%d seen=%q err=%s\n", c.Route, o.Status, o.Contacts, o.SeenVia, o.Err)
 			rg.stop()
@@ -559,7 +571,7 @@ func main() {
 		}
 		m.LineHist[fmt.Sprint(len(c.Header["Via"]))]++
 		vc = append(vc, coqVcase(c, o))
-		vj = append(vj, c)
+		vj = append(vj, vrec{c, o})
 	}
 	for _, c := range vcorpus() {
 		add(c)
@@ -620,7 +632,7 @@ func main() {
 			m.E2EStatus[fmt.Sprint(o.Status)]++
 			m.E2EOriginHits += o.Contacts
 			ec = append(ec, coqEcase(rg, c, o))
-			ej = append(ej, untag(c, rg))
+			ej = append(ej, erec{untag(c, rg), o})
 		}
 		m.OriginParseErr = append(m.OriginParseErr, rg.O.Errors()...)
 		rg.stop()
@@ -628,7 +640,7 @@ func main() {
 	m.E2ECases = len(ec)
 	for i := 0; i*m.ShardSize < len(ec); i++ {
 		hi := min((i+1)*m.ShardSize, len(ec))
-		writeShard(*out, "ecases", i, "ecase", "ecase_model_ok", "ecase_prop_ok", ec[i*m.ShardSize:hi], "")
+		writeShard(*out, "ecases", i, "ecase", "ecase_model_ok", "ecase_prop_ok", ec[i*m.ShardSize:hi], noB)
 		m.Shards = append(m.Shards, fmt.Sprintf("ecases_%03d.v", i))
 	}
 	writeJSONL(*out, "ecases.jsonl", ej)
